@@ -144,7 +144,7 @@ def condition(dist, ps_modes, ps_photons, measure=None):
         if all(t[m] == c for m, c in zip(ps_modes, ps_photons)):
             rest = tuple(x for i, x in enumerate(t) if i not in ps_modes)
             if measure is not None:
-                rest = tuple(rest[m] for m in measure)
+                rest = tuple(t[m] for m in measure)      # mode labels are the original ones
             out[rest] = out.get(rest, 0.0) + pr
     tot = sum(out.values())
     return ({k: v / tot for k, v in out.items()} if tot > 0 else {}), tot
@@ -290,13 +290,27 @@ def gen_dyne(rng, idx, kind=None):
     return case
 
 
+def rand_detector(rng, rows, cols):
+    """detector efficiency matrix whose every column is a generic distribution (dark counts
+    and over-counting included); entries k/20, exact"""
+    colsq = []
+    for _ in range(cols):
+        cuts = sorted(rng.sample(range(1, 20), rows - 1))
+        parts = [b - a for a, b in zip([0] + cuts, cuts + [20])]
+        colsq.append([F(x, 20) for x in parts])
+    return [[colsq[j][i] for j in range(cols)] for i in range(rows)]
+
+
 def law_cases(rng, thorough):
-    """feature combinations of the passive sampler; every class at least once"""
+    """feature combinations of the passive sampler; every class at least once; the classes whose
+    single-shot enumeration is small are also run with 2-3 consecutive shots"""
     cases = []
+    joint = 6000 if thorough else 1500
 
     def add(cls, **kw):
         kw["id"] = len(cases)
         kw["cls"] = cls
+        kw.setdefault("max_joint_leaves", joint)
         cases.append(kw)
 
     reps = 3 if thorough else 1
@@ -305,27 +319,183 @@ def law_cases(rng, thorough):
         more = [(3, [2, 0, 1])] + ([(3, [1, 1, 1]), (4, [1, 0, 1, 1]), (3, [0, 3, 0])] if thorough else [])
         for d, occ in small + more:
             cheap_only = (d, occ) not in small
+            sh = 2 if d == 2 else 1
             U = rand_unitary(rng, d)
-            add("ideal", U=ujson(U), input=occ)
-            add("uniform-loss", U=ujson(U), input=occ, eta=float(rng.choice([F(4, 5), F(1, 2)])))
+            add("ideal", U=ujson(U), input=occ, shots=2 if d <= 3 and sum(occ) <= 2 else 1)
+            add("uniform-loss", U=ujson(U), input=occ, eta=float(rng.choice([F(4, 5), F(1, 2)])), shots=sh)
             m = rng.randrange(d)
             c = rng.choice([0, 1])
-            add("postselect", U=ujson(U), input=occ, ps_modes=[m], ps_photons=[c])
+            add("postselect", U=ujson(U), input=occ, ps_modes=[m], ps_photons=[c], shots=sh)
             add("uniform-loss+postselect", U=ujson(U), input=occ, eta=float(rng.choice([F(4, 5), F(3, 5)])),
-                ps_modes=[m], ps_photons=[c], trials=1)
+                ps_modes=[m], ps_photons=[c], trials=1, shots=sh)
             add("nonuniform-loss", U=ujson(U), input=occ,
-                loss=[float(x) for x in rng.sample([F(9, 10), F(4, 5), F(7, 10), F(3, 5), F(1, 2)], d)])
+                loss=[float(x) for x in rng.sample([F(9, 10), F(4, 5), F(7, 10), F(3, 5), F(1, 2)], d)], shots=sh)
             add("loss-on-one-mode", U=ujson(U), input=occ, loss=[0.9] + [1.0] * (d - 1))
             if cheap_only:
                 continue
             if r == 0:
                 add("uniform-loss+postselect", U=ujson(U), input=occ, eta=0.8, ps_modes=[m], ps_photons=[c], trials=2)
-            add("uniform-overlap", U=ujson(U), input=occ, overlap=float(rng.choice([F(1, 2), F(4, 5)])))
+            add("uniform-overlap", U=ujson(U), input=occ, overlap=float(rng.choice([F(1, 2), F(4, 5)])), shots=sh)
             add("uniform-overlap+loss", U=ujson(U), input=occ, overlap=0.5, eta=0.8)
             add("uniform-overlap+postselect", U=ujson(U), input=occ, overlap=0.5, ps_modes=[m], ps_photons=[c], trials=1)
+        # measurement of a subset of the modes (direct marginal sampler), several shots
+        for d, occ, k, shots in [(3, [1, 1, 0], 2, 3), (4, [1, 1, 0, 0], 3, 2), (3, [2, 0, 1], 2, 2)] + \
+                ([(4, [1, 0, 2, 0], 3, 2), (4, [1, 1, 1, 0], 2, 2)] if thorough else []):
+            U = rand_unitary(rng, d)
+            meas = rng.sample(range(d), k)
+            add("marginal", U=ujson(U), input=occ, measure=meas, shots=shots)
+            add("marginal+uniform-loss", U=ujson(U), input=occ, measure=sorted(meas), eta=float(rng.choice([F(4, 5), F(3, 5)])), shots=2)
+        U = rand_unitary(rng, 4)
+        m = rng.randrange(4)
+        add("marginal+postselect", U=ujson(U), input=[1, 1, 0, 0], ps_modes=[m], ps_photons=[rng.choice([0, 1])],
+            measure=sorted(rng.sample([x for x in range(4) if x != m], 2)), shots=2)
+        # imperfect detectors with generic columns
+        for d, occ, meas in [(2, [1, 0], None), (2, [1, 1], None), (3, [1, 1, 0], [2, 0])]:
+            U = rand_unitary(rng, d)
+            det = rand_detector(rng, rng.choice([3, 4]), 3)
+            kw = dict(U=ujson(U), input=occ, detector=[[float(x) for x in row] for row in det], shots=2)
+            if meas is not None:
+                kw["measure"] = meas
+            add("imperfect-detector" + ("+marginal" if meas else ""), **kw)
     # the vacuum input with an impossible post-selection
     add("postselect-vacuum", U=ujson(rand_unitary(rng, 2)), input=[0, 0], ps_modes=[0], ps_photons=[1])
     return cases
+
+
+def detect_push(dist, P):
+    """push a distribution of actual counts through the detector matrix P[detected][actual]"""
+    out = {}
+    rows = len(P)
+    for a, pr in dist.items():
+        for det in itertools.product(range(rows), repeat=len(a)):
+            w = pr
+            for dm, am in zip(det, a):
+                w *= P[dm][am]
+            if w:
+                out[det] = out.get(det, 0.0) + w
+    return out
+
+
+def product_law(single, shots):
+    """law of the sorted tuple of `shots` independent draws from `single`"""
+    out = {}
+    keys = list(single)
+    for combo in itertools.product(keys, repeat=shots):
+        w = 1.0
+        for k in combo:
+            w *= single[k]
+        key = tuple(sorted(combo))
+        out[key] = out.get(key, 0.0) + w
+    return out
+
+
+def gen_imperfect(rng, idx):
+    rows, cols = rng.choice([2, 3, 4]), rng.choice([2, 3])
+    det = rand_detector(rng, rows, cols) if rows > 1 else [[F(1)] * cols]
+    k = rng.randint(1, 3)
+    actual = [rng.choice([0, 0] + list(range(cols))) for _ in range(k)]
+    mult = rng.randint(1, 3 if k < 3 else 2)
+    return {"id": idx, "detq": det, "detector": [[float(x) for x in row] for row in det], "actual": actual,
+            "multiplicity": mult, "draws": [rng.randrange(12) / 12.0 for _ in range(k * mult)]}
+
+
+# ----------------------------------------------------------------------------- exact Gaussian conditioning
+def fmat_mul(A, B):
+    return [[sum(A[i][k] * B[k][j] for k in range(len(B))) for j in range(len(B[0]))] for i in range(len(A))]
+
+
+def fmat_inv(A):
+    n = len(A)
+    M = [list(row) + [F(int(i == j)) for j in range(n)] for i, row in enumerate(A)]
+    for c in range(n):
+        piv = next(r for r in range(c, n) if M[r][c] != 0)
+        M[c], M[piv] = M[piv], M[c]
+        pv = M[c][c]
+        M[c] = [x / pv for x in M[c]]
+        for r in range(n):
+            if r != c and M[r][c] != 0:
+                f = M[r][c]
+                M[r] = [x - f * y for x, y in zip(M[r], M[c])]
+    return [row[n:] for row in M]
+
+
+def dyne_sequence_expected(mu, sigma, hbar, steps, d):
+    """For a sequence of general-dyne type measurements: the (mean, cov) every measurement must
+    hand to the normal sampler, given that the sampler returned mean + (j+1)/4 in entry j for
+    the earlier ones.  Exact Gaussian conditioning on the quadratures actually measured:
+    sigma_B' = sigma_B - sigma_BA (sigma_A + hbar sigma_m)^-1 sigma_AB,
+    mu_B' = mu_B + sigma_BA (sigma_A + hbar sigma_m)^-1 (r - mu_A)."""
+    labels = list(range(d))
+    mu = list(mu)
+    sigma = [list(r) for r in sigma]
+    out = []
+    for st in steps:
+        pos = [labels.index(m) for m in st["modes"]]
+        dim = len(mu)
+        if st["kind"] == "homodyne":
+            c, s_ = st["cq"], st["sq"]
+            R = [[F(int(i == j)) for j in range(dim)] for i in range(dim)]
+            for p_ in pos:
+                R[2 * p_][2 * p_], R[2 * p_][2 * p_ + 1], R[2 * p_ + 1][2 * p_], R[2 * p_ + 1][2 * p_ + 1] = c, s_, -s_, c
+            mu = [sum(R[i][k] * mu[k] for k in range(dim)) for i in range(dim)]
+            sigma = fmat_mul(fmat_mul(R, sigma), [list(x) for x in zip(*R)])
+            z = st["zq"]
+            sm = [[z * z, F(0)], [F(0), 1 / (z * z)]]
+        else:
+            sm = st["smq"]
+        idx = [q for p_ in pos for q in (2 * p_, 2 * p_ + 1)]
+        outer = [i for i in range(dim) if i not in idx]
+        mean = [mu[i] for i in idx]
+        tot = [[sigma[a][b] + (hbar * sm[i % 2][j % 2] if i // 2 == j // 2 else 0) for j, b in enumerate(idx)]
+               for i, a in enumerate(idx)]
+        out.append((mean, [[x / 2 for x in row] for row in tot]))
+        ret = [m_ + F(j + 1, 4) for j, m_ in enumerate(mean)]
+        if outer:
+            inv = fmat_inv(tot)
+            K = fmat_mul([[sigma[a][b] for b in idx] for a in outer], inv)
+            delta = [r_ - m_ for r_, m_ in zip(ret, mean)]
+            mu = [mu[a] + sum(K[i][j] * delta[j] for j in range(len(idx))) for i, a in enumerate(outer)]
+            KS = fmat_mul(K, [[sigma[a][b] for b in outer] for a in idx])
+            sigma = [[sigma[a][b] - KS[i][j] for j, b in enumerate(outer)] for i, a in enumerate(outer)]
+        else:
+            mu, sigma = [], []
+        labels = [l for l in labels if l not in st["modes"]]
+    return out
+
+
+def gen_dyne_step(rng, modes):
+    kind = rng.choice(["homodyne", "homodyne", "generaldyne", "heterodyne"])
+    st = {"kind": kind, "modes": modes}
+    if kind == "generaldyne":
+        u = rng.choice([F(1), F(2), F(1, 2), F(3, 2)])
+        c, s = rng.choice(PYTH + [(F(1), F(0))])
+        st["smq"] = [[c * c * u + s * s / u, c * s * (u - 1 / u)], [c * s * (u - 1 / u), s * s * u + c * c / u]]
+        st["sm"] = [[float(x) for x in r] for r in st["smq"]]
+    elif kind == "heterodyne":
+        st["smq"] = [[F(1), F(0)], [F(0), F(1)]]
+    else:
+        c, s = rng.choice(PYTH)          # a non-zero angle
+        z = rng.choice([F(1, 2), F(1, 4), F(2, 3)])
+        st["cq"], st["sq"], st["zq"] = c, s, z
+        st["phi"] = math.atan2(float(s), float(c))
+        st["z"] = float(z)
+    return st
+
+
+def gen_dyne2(rng, idx):
+    d = rng.choice([2, 3, 3])
+    hbar = rng.choice([F(2), F(1), F(3), F(1, 2)])
+    sigma = symplectic_cov(rng, d, hbar)
+    mu = [small_q(rng, -4, 4) for _ in range(2 * d)]
+    order = rng.sample(range(d), d)
+    ka = rng.randint(1, d - 1)
+    kb = rng.randint(1, d - ka)
+    steps = [gen_dyne_step(rng, order[:ka]), gen_dyne_step(rng, order[ka:ka + kb])]
+    if d - ka - kb >= 1 and rng.random() < 0.5:
+        steps.append(gen_dyne_step(rng, order[ka + kb:]))
+    return {"id": idx, "d": d, "hbarq": hbar, "sigmaq": sigma, "muq": mu, "stepsq": steps,
+            "hbar": float(hbar), "sigma": [[float(x) for x in r] for r in sigma], "mu": [float(x) for x in mu],
+            "steps": [{k: v for k, v in st.items() if not k.endswith("q")} for st in steps]}
 
 
 CORPUS = os.path.join(VERIF, "harness", "corpus", "c02.jsonl")
@@ -361,6 +531,8 @@ def run(chk: Check):
     counts = [gen_counts(rng, i) for i in range(ncounts)]
     dyne = [gen_dyne(rng, i) for i in range(ndyne)]
     laws = law_cases(rng, T)
+    imps = [gen_imperfect(rng, i) for i in range(120 if T else 40)]
+    dyne2 = [gen_dyne2(rng, i) for i in range(150 if T else 40)]
 
     def strip(c):
         return {k: v for k, v in c.items() if not k.endswith("q")}
@@ -369,7 +541,8 @@ def run(chk: Check):
            "trunc": [dict(strip(c), poly=[float(x) for x in c["polyq"]], c=float(c["cq"]),
                           ls=[float(x) for x in c["lsq"]]) for c in trunc],
            "dist": [strip(c) for c in dist], "counts": counts, "dyne": [strip(c) for c in dyne],
-           "law": [{k: v for k, v in c.items() if k != "cls"} for c in laws]}
+           "law": [{k: v for k, v in c.items() if k != "cls"} for c in laws],
+           "imperfect": [strip(c) for c in imps], "dyne2": [strip(c) for c in dyne2]}
     os.makedirs(os.path.join(VERIF, ".run"), exist_ok=True)
     json.dump(req, open(os.path.join(VERIF, ".run", "c02_request.json"), "w"))
     impl = run_impl("c02_impl.py", req, timeout=3000)
@@ -524,8 +697,42 @@ def run(chk: Check):
                       % ";\n".join(items[i:i + 25]))
         index.append(("dyne", ids[i:i + 25]))
 
+    # ---------------- 6. imperfect detection: exact branch weights and the sampled bins
+    items, ids = [], []
+    imp_draws = []
+    for c, r in zip(imps, impl["imperfect"]):
+        if "exact" not in r or "scripted" not in r:
+            corr_broken.append("imperfect detection: the implementation raised on case %s: %s" % (c["id"], r.get("exact_error") or r.get("scripted_error")))
+            continue
+        k, mult = len(c["actual"]), c["multiplicity"]
+        picks = [x[1] for x in r["calls"]]
+        draws_by_mode = [picks[m * mult:(m + 1) * mult] for m in range(k)] if len(picks) == k * mult else None
+        if draws_by_mode is None:
+            imp_draws.append("%d draws for %d modes x %d shots (case %s, actual %s)" % (len(picks), k, mult, c["id"], c["actual"]))
+            continue
+        P = clist(c["detq"], lambda row: clist(row, cq))
+        items.append(
+            "(list_eqb (fun (a b : list nat * Q) => nl_eqb (fst a) (fst b) && Qeq_bool (snd a) (snd b)) "
+            "(detected_outcome_probabilities (N:=QN) %s %s) %s && "
+            "list_eqb (fun (a b : list nat * nat) => nl_eqb (fst a) (fst b) && Nat.eqb (snd a) (snd b)) "
+            "(sample_detected %s %s) %s && "
+            "qll_eqb (probabilities_by_mode (N:=QN) %s %s) %s)" % (
+                P, nlist(c["actual"]),
+                clist(r["exact"], lambda t: "(%s, %s)" % (nlist(t[0]), cq(F(t[1], t[2])))),
+                cn(mult), clist(draws_by_mode, nlist),
+                clist(r["scripted"], lambda t: "(%s, %s)" % (nlist(t[0]), cn(t[1]))),
+                P, nlist(c["actual"]),
+                clist([r["calls"][m * mult][2] for m in range(k)], lambda w: clist([F(x).limit_denominator(1000) for x in w], cq))))
+        ids.append(c["id"])
+    bodies.append(IMPORTS + "From PV Require Import C02.ImperfectModel.\nDefinition cases : list bool := [%s].\nEval vm_compute in mismatches (fun b : bool => b) cases.\n"
+                  % ";\n".join(items))
+    index.append(("imperfect", ids))
+    if imp_draws:
+        corr_broken.append("imperfect detection: _sample_detected_outcomes does not draw one count per mode and shot in %d case(s): %s"
+                           % (len(imp_draws), "; ".join(imp_draws[:3])))
+
     outs = coq_eval_parallel("c02", bodies, jobs=4)
-    bad = {"loop": [], "trunc": [], "dist": [], "counts": [], "dyne": []}
+    bad = {"loop": [], "trunc": [], "dist": [], "counts": [], "dyne": [], "imperfect": []}
     for (stream, idl), o in zip(index, outs):
         g = parse_coq_list(o)
         for k in g[0]:
@@ -534,7 +741,8 @@ def run(chk: Check):
              "trunc": "multiply_by_linear_truncated (distinct and aliased out buffer)",
              "dist": "post-selection probability / table / conditioned sampler of the distinguishable photons (model of the repaired, non-aliased code)",
              "counts": "sample_from_probability_map binning",
-             "dyne": "(mean, cov) handed to multivariate_normal (model of the repaired code: (sigma + hbar sigma_m)/2)"}
+             "dyne": "(mean, cov) handed to multivariate_normal (model of the repaired code: (sigma + hbar sigma_m)/2)",
+             "imperfect": "imperfect detection: shots=None branch weights, per-mode columns handed to rng.choice, binning of the sampled counts"}
     json.dump({"bad": bad, "impl": {k: impl[k] for k in ("postselect", "dist")}},
               open(os.path.join(VERIF, ".run", "c02_last_ties.json"), "w"))
     for stream, lst in bad.items():
@@ -556,6 +764,10 @@ def run(chk: Check):
     chk.stream("general-dyne / heterodyne / homodyne arguments of multivariate_normal vs model", len(dyne),
                len({json.dumps([c["modes"], c["kind"], c["d"]]) for c in dyne}),
                samples=[{"kind": dyne[0]["kind"], "modes": dyne[0]["modes"], "hbar": str(dyne[0]["hbarq"])}])
+
+    chk.stream("imperfect detection (_get_detected_outcome_probabilities, _sample_detected_outcomes with scripted draws) vs model",
+               len(imps), len({json.dumps([c["actual"], c["multiplicity"], c["detector"]]) for c in imps if len(c["actual"]) >= 2}),
+               samples=[{"actual": imps[0]["actual"], "multiplicity": imps[0]["multiplicity"], "detector": [[str(x) for x in row] for row in imps[0]["detq"]]}])
 
     # ---------------- search: the property stated directly on the implementation
     # (a) one pass of the post-selected loop accepts only satisfied samples; a multi-trial run
@@ -644,12 +856,16 @@ def run(chk: Check):
     nlaw = 0
     leaves = 0
     classes = {}
+    njoint = [0]
     for c, r in zip(laws, impl["law"]):
         nlaw += 1
         cls = c["cls"]
         classes[cls] = classes.get(cls, 0) + 1
         wit = {k: v for k, v in c.items() if k not in ("id",)}
-        wit["call"] = "PassiveSimulator.execute(NumberState/Interferometer/loss/PostSelectPhotons/ParticleNumberMeasurement, shots=1) with every random choice enumerated"
+        wit.pop("max_joint_leaves", None)
+        wit["call"] = "PassiveSimulator.execute(NumberState/Interferometer/loss/PostSelectPhotons/(Imperfect)ParticleNumberMeasurement, shots=1 and shots=%d) with every random choice enumerated" % c.get("shots", 1)
+        measure = c.get("measure")
+        det = c.get("detector")
         if "law_error" in r and "enumeration limit" in r["law_error"]:
             chk.notes.append("law case %s (%s): enumeration limit reached, not compared" % (c["id"], cls))
             continue
@@ -662,7 +878,7 @@ def run(chk: Check):
         rejected = sum(v for k, v in r["law"] if k == "rejected")
         ps_modes, ps_photons = c.get("ps_modes", []), c.get("ps_photons", [])
         d = len(c["input"])
-        if any(len(k) != d - len(ps_modes) for k in law):
+        if any(len(k) != (len(measure) if measure is not None else d - len(ps_modes)) for k in law):
             chk.violation("C02:particle_number_measurement:%s:entries" % cls, "a sample does not have one entry per measured mode", wit)
         acc = sum(law.values())
         if cls == "postselect-vacuum":
@@ -681,13 +897,13 @@ def run(chk: Check):
         refs = []
         if "reference" in r:
             refd = {tuple(k): v for k, v in r["reference"]}
-            refs.append(("State.fock_probabilities_map", condition(refd, ps_modes, ps_photons)))
+            refs.append(("State.fock_probabilities_map", condition(refd, ps_modes, ps_photons, measure)))
         if c.get("overlap") is None and c.get("loss") is None:
             Uc = [[complex(a, b) for a, b in row] for row in c["U"]]
             born = born_distribution(Uc, c["input"])
             if c.get("eta") is not None:
                 born = thin(born, c["eta"] ** 2)
-            refs.append(("permanent formula (harness)", condition(born, ps_modes, ps_photons)))
+            refs.append(("permanent formula (harness)", condition(born, ps_modes, ps_photons, measure)))
         if c.get("overlap") is None and c.get("loss") is not None:
             Uc = [[complex(a, b) for a, b in row] for row in c["U"]]
             indep = condition(lossy_distribution(Uc, c["input"], c["loss"]), ps_modes, ps_photons)
@@ -700,6 +916,27 @@ def run(chk: Check):
                               dict(wit, state_map={str(k): round(v, 9) for k, v in refs[0][1][0].items() if v > 1e-12},
                                    exact={str(k): round(v, 9) for k, v in indep[0].items() if v > 1e-12}))
                 refs.pop(0)
+        if det is not None:
+            refs = [(name + " pushed through the detector matrix", (detect_push(ref, det), pacc)) for name, (ref, pacc) in refs]
+            if "exact_branches" in r:
+                refs.append(("branch weights of the same program with shots=None", ({tuple(k): v for k, v in r["exact_branches"]}, 1.0)))
+            elif "exact_branches_error" in r:
+                chk.notes.append("law case %s: shots=None raised %s" % (c["id"], r["exact_branches_error"]))
+        # consecutive shots: the joint law must be the product of the single-shot laws
+        if "law_multi" in r:
+            shots = r["shots"]
+            joint = {tuple(tuple(x) for x in k): v for k, v in r["law_multi"] if k != "rejected"}
+            want = product_law(law, shots)
+            dj = law_distance(joint, want)
+            if dj > 1e-8:
+                worst = max(set(joint) | set(want), key=lambda k: abs(joint.get(k, 0.0) - want.get(k, 0.0)))
+                chk.violation("C02:particle_number_measurement:%s:consecutive-shots-not-independent" % cls,
+                              "%d consecutive shots: the joint law differs from the product of the single-shot laws by %.3g (samples %s: probability %.6g, product law %.6g)"
+                              % (shots, dj, list(worst), joint.get(worst, 0.0), want.get(worst, 0.0)),
+                              dict(wit, shots=shots, joint_outcome=[list(x) for x in worst],
+                                   joint_probability=joint.get(worst, 0.0), product_law_probability=want.get(worst, 0.0),
+                                   single_shot_law={str(k): round(v, 9) for k, v in law.items()}))
+            njoint[0] += 1
         for name, (ref, pacc) in refs:
             dist_ = law_distance(cond, ref)
             wit2 = dict(wit, sampler_law={str(k): round(v, 9) for k, v in cond.items()},
@@ -708,18 +945,81 @@ def run(chk: Check):
                 chk.violation("C02:particle_number_measurement:%s:law" % cls,
                               "law of the returned sample differs from the exact distribution by %.3g" % dist_, wit2)
                 break
-            if c.get("trials", 1) == 1 and ps_modes and abs(acc - pacc) > 1e-8:
+            if c.get("trials", 1) == 1 and ps_modes and measure is None and abs(acc - pacc) > 1e-8:
                 chk.violation("C02:particle_number_measurement:%s:acceptance" % cls,
                               "one trial is accepted with probability %.9g, the post-selected event has probability %.9g" % (acc, pacc), wit2)
                 break
     chk.stream("exact law of PassiveSimulator particle-number sampling by enumeration of every random choice, against State.fock_probabilities_map and the permanent formula",
                nlaw, len(classes), kind="search", exhaustive=False,
-               samples=[{"classes": classes, "paths_enumerated": leaves}])
+               samples=[{"classes": classes, "paths_enumerated": leaves, "cases_with_2_or_3_consecutive_shots": njoint[0]}])
+
+    # (e) imperfect detection: the law of the sampled bins, by enumeration of every rng.choice,
+    #     against the shots=None weights (multinomial over the detected outcomes)
+    nimp = 0
+    for c, r in zip(imps, impl["imperfect"]):
+        if "law" not in r or "exact" not in r:
+            if "law_error" in r and "enumeration limit" not in r["law_error"]:
+                chk.violation("C02:_sample_detected_outcomes:error", "raises %s" % r["law_error"], strip(c))
+            continue
+        nimp += 1
+        mult = c["multiplicity"]
+        impl_exact = {tuple(t[0]): t[1] / t[2] for t in r["exact"]}
+        indep = detect_push({tuple(c["actual"]): 1.0}, c["detector"])
+        got = {tuple(sorted(x for k, v in key for x in [tuple(k)] * v)): pr for key, pr in r["law"]}
+        for name, single in (("_get_detected_outcome_probabilities (shots=None weights)", impl_exact),
+                             ("product of the detector columns (harness)", indep)):
+            want = product_law(single, mult)
+            dj = law_distance(got, want)
+            if dj > 1e-9:
+                worst = max(set(got) | set(want), key=lambda k: abs(got.get(k, 0.0) - want.get(k, 0.0)))
+                chk.violation("C02:_sample_detected_outcomes:law",
+                              "actual outcome %s, %d shots: detected outcomes %s are sampled with probability %.6g, %s gives %.6g"
+                              % (c["actual"], mult, [list(x) for x in worst], got.get(worst, 0.0), name, want.get(worst, 0.0)),
+                              dict(strip(c), detected=[list(x) for x in worst], sampled_probability=got.get(worst, 0.0),
+                                   exact_probability=want.get(worst, 0.0), reference=name,
+                                   call="piquasso._simulators.simulation_steps._sample_detected_outcomes with every rng.choice enumerated"))
+                break
+    chk.stream("imperfect detection: exact law of the sampled bins by enumeration, against the shots=None weights and the detector columns",
+               nimp, len({json.dumps([c["actual"], c["multiplicity"]]) for c in imps}), kind="search")
+
+    # (f) measurements in a row on correlated Gaussian states: every (mean, cov) handed to the normal
+    #     sampler against exact Gaussian conditioning on the quadratures actually measured
+    nd2 = 0
+    for c, r in zip(dyne2, impl["dyne2"]):
+        nd2 += 1
+        kinds = "+".join(st["kind"] for st in c["steps"])
+        wit = dict(strip(c), call="GaussianSimulator.execute(shots=1, initial_state) with multivariate_normal replaced by a recorder returning mean + (j+1)/4")
+        if "error" in r:
+            chk.violation("C02:generaldyne_measurement:mid-circuit:error", "execution raises %s" % r["error"], wit)
+            continue
+        want = dyne_sequence_expected(c["muq"], c["sigmaq"], c["hbarq"], c["stepsq"], c["d"])
+        if len(r["calls"]) != len(want):
+            chk.violation("C02:generaldyne_measurement:mid-circuit:calls", "%d calls of multivariate_normal for %d measurements" % (len(r["calls"]), len(want)), wit)
+            continue
+        for j, (call, (mean, cov)) in enumerate(zip(r["calls"], want)):
+            fm = [float(x) for x in mean]
+            fc = [float(x) for row in cov for x in row]
+            okm = len(fm) == len(call["mean"]) and all(abs(a - b) <= 1e-8 * (1 + abs(b)) for a, b in zip(call["mean"], fm))
+            okc = len(fc) == len(call["cov"]) and all(abs(a - b) <= 1e-8 * (1 + abs(b)) for a, b in zip(call["cov"], fc))
+            if not (okm and okc):
+                what = "first" if j == 0 else "later"
+                key = ("C02:_get_generaldyne_samples:arguments" if j == 0 else
+                       "C02:_get_generaldyne_evolved_state:conditioning-after-%s" % c["steps"][j - 1]["kind"])
+                chk.violation(key, "measurement %d of the sequence %s: the %s handed to the normal sampler is not the exact %s (first differing: got %s, exact %s)"
+                              % (j + 1, kinds, "mean" if not okm else "covariance",
+                                 "conditional mean given the earlier outcomes" if not okm else "(sigma' + hbar sigma_m)/2 of the conditional state",
+                                 (call["mean"] if not okm else call["cov"])[:4], (fm if not okm else fc)[:4]),
+                              dict(wit, measurement=j + 1, passed=call, exact_mean=fm, exact_cov=fc))
+                break
+    chk.stream("sequences of homodyne / heterodyne / general-dyne measurements on correlated Gaussian states: sampler arguments vs exact conditioning",
+               nd2, len({json.dumps([c["d"], [(st["kind"], st["modes"]) for st in c["steps"]]]) for c in dyne2}), kind="search",
+               samples=[{"d": dyne2[0]["d"], "steps": dyne2[0]["steps"]}])
 
     chk.assumptions += [
         "rng.choice(p=w) draws index i with probability w_i and multivariate_normal(mean, cov) draws N(mean, cov) (NumPy's generators are not modelled)",
         "the conditional pmfs of _calculate_pmf (Laplace-expansion permanents) are not proved to be the Born marginals; they are covered by the exact-law enumeration for d<=4, n<=3 only",
         "theorems are proved about the model instantiated at R; the correspondence runs the same definitions at Q",
+        "Gaussian particle-number sampling (rng.normal unravelling) is not enumerated; the exact Gaussian conditioning reference is computed by the harness in exact rational arithmetic",
     ]
     chk.finish(
         rule="loops: distinct (input, post-selection, event list) with >=2 events; trunc: distinct (shape, linear form) with >=2 axes; law: feature classes of the sampler",
